@@ -21,6 +21,13 @@ pub struct Case {
     /// inner loops [from, to) in which every proposal is rejected (undefined score)
     #[serde(default)]
     pub jam: Vec<(u64, u64)>,
+    /// steps beyond a whole number of inner loops (they are not run, but must not disturb the
+    /// schedule of the loops that are)
+    #[serde(default)]
+    pub extra_steps: u64,
+    /// fixed probe depth instead of one derived from the expected temperature
+    #[serde(default)]
+    pub depth: Option<f64>,
 }
 
 /// allowed temperature interval [lo, hi] of inner loop l (None: nothing is required)
@@ -57,6 +64,9 @@ pub fn allowed_kt(c: &Case, l: u64) -> Option<(f64, f64)> {
 
 /// probe depth for loop l: near the expected temperature (p ~ 1/e is the most informative)
 fn probe_depth(c: &Case, l: u64) -> f64 {
+    if let Some(d) = c.depth {
+        return d;
+    }
     let floor = c.kt_start.max(1e-300) * 1e-7;
     match allowed_kt(c, l) {
         Some((lo, hi)) if hi > 0. => (lo * hi).sqrt().max(floor),
@@ -71,7 +81,7 @@ pub fn scripted(c: &Case) -> ScriptedCase {
         init: vec![0.; c.k],
         bounds: vec![(-1e6, 1e6); c.k],
         script: Script::Probe { d, inner: c.inner, jam: c.jam.clone() },
-        cfg: OptCfg { steps: c.loops * c.inner, inner_steps: c.inner, kt_start: c.kt_start, kt_finish: c.kt_finish, kt_ratio: c.kt_ratio, max_step_size: 1e-6, seed: c.seed, convergence: None },
+        cfg: OptCfg { steps: c.loops * c.inner + c.extra_steps, inner_steps: c.inner, kt_start: c.kt_start, kt_finish: c.kt_finish, kt_ratio: c.kt_ratio, max_step_size: 1e-6, seed: c.seed, convergence: None },
         via_api: c.via_api,
     }
 }
@@ -170,7 +180,7 @@ pub fn cases(tier: Tier, seed: u64) -> Vec<Case> {
     let mut out = vec![];
     let mut push = |kt_start: f64, kt_finish: Option<f64>, kt_ratio: Option<f64>, loops: u64, inner: u64, via_api: bool| {
         let i = out.len() as u64;
-        out.push(Case { kt_start, kt_finish, kt_ratio, loops, inner, k: if i % 2 == 0 { 6 } else { 16 }, seed: seed.wrapping_mul(7919).wrapping_add(i), via_api, jam: vec![] });
+        out.push(Case { kt_start, kt_finish, kt_ratio, loops, inner, k: if i % 2 == 0 { 6 } else { 16 }, seed: seed.wrapping_mul(7919).wrapping_add(i), via_api, jam: vec![], extra_steps: 0, depth: None });
     };
     // ratio given (exact schedule), with and without a finishing temperature also set
     for &(s, r) in [(0.1, 0.0), (1., 0.1), (0.5, 0.5), (1., 0.9)].iter() {
@@ -191,11 +201,11 @@ pub fn cases(tier: Tier, seed: u64) -> Vec<Case> {
     for &(inner, jam_from, jam_len, r) in [(3u64, 40u64, 60u64, 0.004), (6, 30, 90, 0.004), (1, 30, 25, 0.002), (12, 20, 140, 0.003)].iter() {
         let loops = jam_from + jam_len + many / 20;
         let i = out.len() as u64;
-        out.push(Case { kt_start: 1., kt_finish: None, kt_ratio: Some(r), loops, inner: if inner < 3 { 3 } else { inner }, k: 6, seed: seed.wrapping_mul(7919).wrapping_add(i), via_api: false, jam: vec![(jam_from, jam_from + jam_len)] });
+        out.push(Case { kt_start: 1., kt_finish: None, kt_ratio: Some(r), loops, inner: if inner < 3 { 3 } else { inner }, k: 6, seed: seed.wrapping_mul(7919).wrapping_add(i), via_api: false, jam: vec![(jam_from, jam_from + jam_len)], extra_steps: 0, depth: None });
     }
     let mut push = |kt_start: f64, kt_finish: Option<f64>, kt_ratio: Option<f64>, loops: u64, inner: u64, via_api: bool| {
         let i = out.len() as u64;
-        out.push(Case { kt_start, kt_finish, kt_ratio, loops, inner, k: if i % 2 == 0 { 6 } else { 16 }, seed: seed.wrapping_mul(7919).wrapping_add(i), via_api, jam: vec![] });
+        out.push(Case { kt_start, kt_finish, kt_ratio, loops, inner, k: if i % 2 == 0 { 6 } else { 16 }, seed: seed.wrapping_mul(7919).wrapping_add(i), via_api, jam: vec![], extra_steps: 0, depth: None });
     };
     // finishing temperature given
     for &(s, f) in [(0.1, 1e-3), (1., 0.01), (0.5, 0.5), (1e-3, 0.1)].iter() {
@@ -205,6 +215,23 @@ pub fn cases(tier: Tier, seed: u64) -> Vec<Case> {
             push(s, Some(f), None, l, 3 * per, true);
         }
     }
+    // steps that are not a whole number of loops: the loops that run keep their schedule
+    for &(s, f, l) in [(1., 1e-4, 3u64), (0.1, 1e-3, 2), (1., 1e-4, 4), (1., 0.01, 5), (1e-3, 0.1, 3)].iter() {
+        for &frac in [0.999, 0.5, 0.25].iter() {
+            let inner = 3 * n;
+            let i = out.len() as u64;
+            out.push(Case { kt_start: s, kt_finish: Some(f), kt_ratio: None, loops: l, inner, k: 6, seed: seed.wrapping_mul(7919).wrapping_add(i), via_api: i % 2 == 0, jam: vec![], extra_steps: ((inner as f64) * frac) as u64, depth: None });
+        }
+    }
+    // zero temperature: no worse move is accepted however small it is
+    for &d in [5e-324, 1e-300, 1e-100, 1e-20, 1e-16, 1e-12, 1e-8].iter() {
+        let i = out.len() as u64;
+        out.push(Case { kt_start: 0., kt_finish: if i % 2 == 0 { Some(0.1) } else { None }, kt_ratio: if i % 3 == 0 { Some(0.5) } else { None }, loops: 3, inner: 3 * n / 2, k: 6, seed: seed.wrapping_mul(7919).wrapping_add(i), via_api: false, jam: vec![], extra_steps: 0, depth: Some(d) });
+    }
+    let mut push = |kt_start: f64, kt_finish: Option<f64>, kt_ratio: Option<f64>, loops: u64, inner: u64, via_api: bool| {
+        let i = out.len() as u64;
+        out.push(Case { kt_start, kt_finish, kt_ratio, loops, inner, k: if i % 2 == 0 { 6 } else { 16 }, seed: seed.wrapping_mul(7919).wrapping_add(i), via_api, jam: vec![], extra_steps: 0, depth: None });
+    };
     // neither
     push(0.3, None, None, 1, 3 * n, false);
     push(0.3, None, None, 5, 3 * n, false);
